@@ -239,6 +239,14 @@ def file_menu():
     c('cnfgen', 'dimacs {FX}/small.cnf -T shuffle')
     c('cnfgen', 'dimacs {FX}/small.cnf')
     c('cnfshuffle', '-i {FX}/small.cnf')
+    # samplers that restart many times (dense regular graphs) and large sparse
+    # random graphs (other code paths than the small ones of the menu)
+    c('cnfgen', 'subsetcard regular 10 10 8')
+    c('cnfgen', 'php regular 12 12 10')
+    c('cnfgen', 'php glrp 200 150 0.02')
+    c('pbgen', 'php glrp 200 150 0.02')
+    c('cnfgen', 'kcolor 2 gnp 260 0.01')
+    c('cnfgen', 'php glrm 180 170 300')
     # file names that are not ASCII, in every output format
     for of in ('', '-of opb ', '-of latex '):
         m.append(('cnfgen', (of + 'php').split() + ['{FX}/citt\u00e0.kthlist'], ''))
